@@ -235,6 +235,9 @@ func instrumentFile(p *packages.Package, f *ast.File, fe *fileEdits, rel string)
 		}
 	}
 
+	recv2 := map[*ast.UnaryExpr]bool{}
+	inSelect := map[*ast.UnaryExpr]bool{}
+	selSend := map[*ast.SendStmt]bool{}
 	var funcStack []string
 	curFunc := func() string {
 		if len(funcStack) == 0 {
@@ -330,12 +333,54 @@ func instrumentFile(p *packages.Package, f *ast.File, fe *fileEdits, rel string)
 			fe.add(off(x.Pos()), off(x.Call.Pos())-off(x.Pos()), fmt.Sprintf("simrt.Go(%d, func() { ", id))
 			fe.add(off(x.Call.End()), 0, " })")
 		case *ast.SendStmt:
-			unsupp = append(unsupp, site{Kind: "chan-send", File: rel, Line: fset.Position(x.Pos()).Line, Func: curFunc()})
+			if selSend[x] {
+				break
+			}
+			newSite("chan-send", x.Pos(), curFunc(), text(x))
+			fe.add(off(x.Chan.Pos()), 0, "simrt.Send(")
+			fe.add(off(x.Arrow), 2, ",")
+			fe.add(off(x.Value.End()), 0, ")")
+		case *ast.AssignStmt:
+			// v, ok := <-ch
+			if len(x.Lhs) == 2 && len(x.Rhs) == 1 {
+				if u, ok := x.Rhs[0].(*ast.UnaryExpr); ok && u.Op == token.ARROW {
+					newSite("chan-recv2", u.Pos(), curFunc(), text(u))
+					fe.add(off(u.Pos()), off(u.X.Pos())-off(u.Pos()), "simrt.Recv2(")
+					fe.add(off(u.X.End()), 0, ")")
+					recv2[u] = true
+				}
+			}
+		case *ast.ExprStmt:
+			// close(ch) -> close(ch); simrt.Wake()
+			if c, ok := x.X.(*ast.CallExpr); ok {
+				if id, ok := c.Fun.(*ast.Ident); ok && id.Name == "close" {
+					if _, isBuiltin := info.Uses[id].(*types.Builtin); isBuiltin {
+						newSite("chan-close", x.Pos(), curFunc(), text(x))
+						fe.add(off(x.End()), 0, "; simrt.Wake()")
+					}
+				}
+			}
 		case *ast.SelectStmt:
 			unsupp = append(unsupp, site{Kind: "select", File: rel, Line: fset.Position(x.Pos()).Line, Func: curFunc()})
+			// channel operations in the comm clauses of a select stay as they are
+			for _, cl := range x.Body.List {
+				if cc, ok := cl.(*ast.CommClause); ok && cc.Comm != nil {
+					ast.Inspect(cc.Comm, func(n ast.Node) bool {
+						if u, ok := n.(*ast.UnaryExpr); ok && u.Op == token.ARROW {
+							inSelect[u] = true
+						}
+						if ss, ok := n.(*ast.SendStmt); ok {
+							selSend[ss] = true
+						}
+						return true
+					})
+				}
+			}
 		case *ast.UnaryExpr:
-			if x.Op == token.ARROW {
-				unsupp = append(unsupp, site{Kind: "chan-recv", File: rel, Line: fset.Position(x.Pos()).Line, Func: curFunc()})
+			if x.Op == token.ARROW && !recv2[x] && !inSelect[x] {
+				newSite("chan-recv", x.Pos(), curFunc(), text(x))
+				fe.add(off(x.Pos()), off(x.X.Pos())-off(x.Pos()), "simrt.Recv(")
+				fe.add(off(x.X.End()), 0, ")")
 			}
 		case *ast.CallExpr:
 			if sel, ok := x.Fun.(*ast.SelectorExpr); ok {
